@@ -907,4 +907,8 @@ class SchedulingSolver(BaseModelWithJson):
         if not self._initialized:
             self.initialize()
         with open(smt_filename, "w", encoding="utf-8") as outfile:
-            outfile.write(self._solver.to_smt2())
+            if isinstance(self._solver, z3.Optimize):
+                # z3.Optimize has no to_smt2 method, sexpr is the SMT-LIB2 export
+                outfile.write(self._solver.sexpr())
+            else:
+                outfile.write(self._solver.to_smt2())
